@@ -26,6 +26,10 @@ def run(ctx):
     for fl in ("skip", "cmp"):
         vlib.rand_only(ctx, "SkipList-" + fl, "SkipList", "OrderedMapTrace", "Trace_nk6.cfg", "skiplist",
                        n=150 if quick else 4000, ln=120 if quick else 200, env={"VERIF_FLAVOUR": fl, "VERIF_RAND_NK": "6", "VERIF_NK": "6"})
+    # larger lists (48 keys: towers of every height the draw produces in practice, long level chains)
+    for fl in ("skip", "cmp"):
+        vlib.rand_only(ctx, "SkipList-%s-48" % fl, "SkipList", "OrderedMapTrace", "Trace_nk48.cfg", "skiplist",
+                       n=12 if quick else 400, ln=200 if quick else 500, env={"VERIF_FLAVOUR": fl, "VERIF_RAND_NK": "48", "VERIF_NK": "48"})
     ctx.assumptions += ["int keys and values", "tower heights are scripted by replacing the list's private random source through an add-only export file in the scratch copy (black-box fallback: own randomness)",
                         "a zero-value SkipList is never initialised by the harness: its first insert draws its own height, so zero-start paths are compared on observations only",
                         "SkipListWithCmp is driven under permutations of the key order (one per path)"]
